@@ -4,7 +4,7 @@ import torch
 
 from harness.lib import Case
 from harness import common as cm
-from symtorch import api
+from symtorch import api, facades
 from symtorch import tensor as st
 from symtorch.api import elem
 
@@ -202,6 +202,57 @@ def functional_case():
     return fn
 
 
+def training_history_case(seq):
+    """histories that include price / compute_loss / fit on one hedger, then hedging B: equal to a fresh hedger holding the
+    same (possibly trained) parameters"""
+
+    def fn(c):
+        from harness.c06 import SimStub
+        from harness.c15 import SymSGD, _quiet_formatting
+        from pfhedge.nn import ExpectedShortfall, Hedger
+
+        _quiet_formatting()
+        c.env["track_grad"] = True
+        c.env["float_sink_ok"] = True
+        A = cm.market(c, 2, 3, "european", "underlier", cost_sym=False)
+        dA = A["derivative"]
+        ulb = cm.make_primary(c, "ulB", 1, 4)
+        dB = cm.make_derivative(c, "lookback", ulb, strike=api.real(c, "KB", pos=True))
+        inputs = ["moneyness", "time_to_maturity", "prev_hedge"]
+        W = api.tensor(c, "W", (1, 3), lo=-1, hi=1)
+        b = api.tensor(c, "b", (1,), lo=-1, hi=1)
+        with facades.real_torch():
+            lin = torch.nn.Linear(3, 1).double()
+        lin.weight = torch.nn.Parameter(W if c.mode == "sym" else W.clone())
+        lin.bias = torch.nn.Parameter(b if c.mode == "sym" else b.clone())
+        used = cm.make_hedger(c, inputs, 1, criterion=ExpectedShortfall(0.5), model=lin)
+        sim = SimStub(c, dA, 2, 3, prefix="simA")
+        lr = api.real(c, "lr", pos=True, hi=1)
+        for op in seq:
+            if op == "priceA":
+                used.price(dA, n_paths=2)
+            elif op == "lossA":
+                used.compute_loss(dA, n_paths=2)
+            elif op == "loss2A":
+                used.compute_loss(dA, n_paths=2, n_times=2, enable_grad=False)
+            elif op == "fitA":
+                used.fit(dA, n_epochs=1, n_paths=2, optimizer=SymSGD(used.model.parameters(), lr), verbose=False)
+            elif op == "plA":
+                used.compute_pl(dA)
+            elif op == "hedgeB":
+                used.compute_hedge(dB)
+        c.check("grad mode restored after %s" % "+".join(seq), torch.is_grad_enabled())
+        fresh = cm.make_hedger(c, inputs, 1, criterion=ExpectedShortfall(0.5), model=lin)
+        if "fitA" in seq:
+            fresh.eval()  # fit(validation=True) leaves the hedger in evaluation mode; modes do not affect a linear model
+        out_u, out_f = used.compute_pl(dB), fresh.compute_pl(dB)
+        c.check("history %s: pl(B) equals a fresh hedger with the same parameters" % "+".join(seq), api.tensor_eq(out_u, out_f))
+        hu, hf = used.compute_hedge(dB), fresh.compute_hedge(dB)
+        c.check("history %s: hedge(B) equals a fresh hedger" % "+".join(seq), api.tensor_eq(hu, hf))
+
+    return fn
+
+
 def history_case(seq, stepwise):
     """final compute_pl(B) of a hedger that went through `seq` == that of a fresh hedger"""
 
@@ -263,8 +314,16 @@ def cases():
         for sw in (False, True):
             cs.append(Case("history/%s/step=%s" % ("+".join(sq), sw), history_case(sq, sw), encodes=enc,
                            bounds="A: N=2,T=3 European; B: N=1,T=4 lookback", timeout=60))
+    for sq in (("priceA",), ("lossA", "hedgeB"), ("fitA",), ("priceA", "fitA"), ("loss2A", "plA")):
+        cs.append(Case("history-training/%s" % "+".join(sq), training_history_case(sq), encodes=enc + ("Hedger.price", "Hedger.compute_loss", "Hedger.fit"),
+                       bounds="A: N=2,T=3 (simulate stub); B: N=1,T=4 lookback; symbolic linear model, SGD with symbolic lr", timeout=120, max_paths=16))
     import itertools
 
+    for sq in itertools.product(["priceA", "lossA", "fitA", "plA", "hedgeB", "loss2A"], repeat=3):
+        if sq.count("fitA") > 1:
+            continue
+        cs.append(Case("history-training/%s" % "+".join(sq), training_history_case(sq), tier="thorough", encodes=enc + ("Hedger.price", "Hedger.compute_loss", "Hedger.fit"),
+                       bounds="sequence length 3 incl. price/compute_loss/fit", timeout=300, max_paths=16))
     ops = ["hedgeA", "plA", "hedgeB", "plB", "inputA", "critA"]
     for sq in itertools.product(ops, repeat=3):
         if sq[0] in ("hedgeB", "plB"):
